@@ -51,7 +51,11 @@ RULE = ('random edge-consistent sequences of 1-8 (quick) / 1-30 (thorough) block
         'the previous event of the channel); twins (an extended trapezoid and an arbitrary gradient with IDENTICAL '
         'normalised amplitude arrays = one deduplicated shape, both orders, with delays); gapped (self-contained '
         'blocks stored with set_block under arbitrary positive, gapped, non-ascending block numbers, partly written '
-        'and re-read). distinct = distinct sequence states; non-trivial = at '
+        'and re-read). History operations also include flip_grad_axis / mod_grad_axis / remove_duplicates / read of '
+        'another file on the live object (use_block_cache True and False); the events every export is compared with '
+        'are those of a cache-free deep copy. Per round also get_gradients(time_range=...) restricted like the '
+        'waveform, waveforms(append_RF=True), get_gradients(gradient_offset / trajectory_delay). '
+        'distinct = distinct sequence states; non-trivial = at '
         'least one non-zero junction between blocks or a gradient with a delay')
 TRUSTED = ['binary64 arithmetic of NumPy and scipy.interpolate.PPoly are outside the model: sampled',
            'get_block is taken as the definition of the events held by the sequence (C06 checks it)']
@@ -160,7 +164,8 @@ def check_round(ctx, case, seq, blocks_desc, rng, n_ranges=3):
     """the whole C08 oracle + model correspondence on the sequence object as it is now.  `case` is what is recorded
     on a failure (full description incl. history and the phase reached); blocks_desc (or None) describes the events
     that were put into the sequence, block by block."""
-    held = eg.Held(seq)
+    # the events of the sequence AS IT IS NOW, decoded without any cache (both cache settings must export these)
+    held = eg.Held(eg.fresh_view(seq))
     if not held.ok:
         ctx.count('gen.off_grid')
         return None
@@ -231,6 +236,66 @@ def check_round(ctx, case, seq, blocks_desc, rng, n_ranges=3):
                                                                    'rendered': float(want)})
                         ok = False
                         break
+    # the other public options of the export functions: append_RF must leave the gradient channels alone,
+    # gradient_offset adds a constant inside the waveform, trajectory_delay shifts the time axis
+    if ok:
+        try:
+            try:
+                w4 = seq.waveforms(append_RF=True)
+            except Warning:
+                # back-to-back RF pulses (ring-down 0, delay 0): the 0.1-raster guard points of the RF CHANNEL overlap
+                # and the monotonicity check of that channel fires; not a statement about the gradient channels
+                w4 = None
+                ctx.count('append_RF.rf_channel_not_monotonic')
+            if w4 is not None and (len(w4) != 4 or any(not np.array_equal(np.asarray(w4[ch]), np.asarray(waves[ch]))
+                                                       for ch in range(3))):
+                ctx.fail('C08/append_RF-changes-gradients', case, {'len': len(w4)})
+                ok = False
+            off = rng.choice([1000.0, -2500.5, 40000.0])
+            dl = rng.choice([1e-6, 7e-6, -3e-6, 5e-5])
+            ppo = seq.get_gradients(gradient_offset=off)
+            ppd = seq.get_gradients(trajectory_delay=dl)
+        except BaseException as e:
+            ctx.fail('C08/export-option-raises', case, {'exception': repr(e)})
+            ok = False
+        if ok:
+            sdl = eg.snap(dl)
+            for ch in range(3):
+                rend = eg.Rendering(held, ch)
+                ts_ch = impl[ch][0]
+                scale = float(max(rend.max_abs(), 1))
+                lim0 = 1e-9 * (scale + abs(off)) + float(rend.max_slope() * held.total) * 1e-15 + 1e-12
+                if not ts_ch:
+                    if ppd[ch] is not None or ppo[ch] is None:
+                        ctx.fail('C08/export-option-empty-channel', case, {'channel': ch})
+                        ok = False
+                        break
+                    tt = [Fraction(0), held.total / 2, held.total]
+                    if any(abs(float(v) - off) > lim0 for v in ppo[ch](np.array([float(t) for t in tt]))):
+                        ctx.fail('C08/gradient_offset-value', case, {'channel': ch, 'offset': off})
+                        ok = False
+                        break
+                    continue
+                times = [t for t in eg.dense_times(held, rend) if ts_ch[0] + eg.TEDGE < t < ts_ch[-1] - eg.TEDGE]
+                if not times:
+                    continue
+                go = ppo[ch](np.array([float(t) for t in times]))
+                gd = ppd[ch](np.array([float(t - sdl) for t in times]))
+                for t, a1, a2 in zip(times, go, gd):
+                    want, spread = rend.value(t)
+                    lim = lim0 + float(rend.slack_at(t)) + float(spread)
+                    if not abs(float(a1) - float(want) - off) <= lim:
+                        ctx.fail('C08/gradient_offset-value', case, {'channel': ch, 't': float(t), 'pp': float(a1),
+                                                                     'rendered': float(want), 'offset': off})
+                        ok = False
+                        break
+                    if not abs(float(a2) - float(want)) <= lim + float(rend.max_slope()) * 1e-18:
+                        ctx.fail('C08/trajectory_delay-value', case, {'channel': ch, 't': float(t), 'pp': float(a2),
+                                                                      'rendered': float(want), 'delay': dl})
+                        ok = False
+                        break
+                if not ok:
+                    break
     # time_range selections
     range_cases = []
     if ok:
@@ -279,6 +344,41 @@ def check_round(ctx, case, seq, blocks_desc, rng, n_ranges=3):
                 break
             if chosen != sel:
                 ctx.count('range.touching_block_dropped_by_rounding')
+            # the same restriction through get_gradients(time_range=...): piecewise polynomials of exactly the
+            # selected blocks (zero outside them)
+            try:
+                ppr = seq.get_gradients(time_range=[a, c])
+            except BaseException as e:
+                ctx.fail('C08/get_gradients-time_range-raises', rcase, {'exception': repr(e)})
+                ok = False
+                break
+            for ch in range(3):
+                rsel = eg.Rendering(held, ch, block_subset=set(chosen))
+                if ppr[ch] is None:
+                    if rsel.items:
+                        ctx.fail('C08/get_gradients-time_range-none', rcase, {'channel': ch})
+                        ok = False
+                    continue
+                times = eg.dense_times(held, eg.Rendering(held, ch))
+                # keep clear of the teps padding ramps at a cut through a non-zero junction
+                ends = [fr for fr in (rimpl[ch][0][:1] + rimpl[ch][0][-1:])]
+                times = [t for t in times if all(abs(t - e) > Fraction(1, 10 ** 9) or t == e for e in ends)]
+                got = ppr[ch](np.array([float(t) for t in times]))
+                scale = float(max(rsel.max_abs(), 1))
+                for t, gv in zip(times, got):
+                    want, spread = rsel.value(t)
+                    if t in ends and want != 0:
+                        continue      # PPoly breakpoint of the padding: left/right value differ there
+                    if not abs(float(gv) - float(want)) <= 1e-9 * scale + float(rsel.slack_at(t)) + float(spread) + 1e-12 \
+                            + float(rsel.max_slope() * held.total) * 1e-15:
+                        ctx.fail('C08/get_gradients-time_range-value', rcase,
+                                 {'channel': ch, 't': float(t), 'pp': float(gv), 'rendered': float(want)})
+                        ok = False
+                        break
+                if not ok:
+                    break
+            if not ok:
+                break
             for ch in range(3):
                 ts, vs = rimpl[ch]
                 # every corner of the restricted export is a corner of the full export
@@ -317,20 +417,6 @@ def check_round(ctx, case, seq, blocks_desc, rng, n_ranges=3):
 
 
 
-def apply_op(seq, blocks, op, case):
-    """one history operation on the sequence object and on its description"""
-    system = eg.make_system(case)
-    raster = case['raster_us'] * 1e-6
-    evs = eg.block_events(op['block'], system, raster)
-    if op['op'] == 'set':
-        seq.set_block(op['index'] + 1, *evs)
-        blocks = blocks[:op['index']] + [op['block']] + blocks[op['index'] + 1:]
-    else:
-        seq.add_block(*evs)
-        blocks = blocks + [op['block']]
-    return blocks
-
-
 def run_case(ctx, case, rng_unused=None):
     """phase 0: the sequence as built; then, per history operation (set_block with another duration / add_block after
     an export), the whole oracle again on the SAME object; then (reread cases) the sequence written and read into a
@@ -348,7 +434,7 @@ def run_case(ctx, case, rng_unused=None):
         return ok
     for k, op in enumerate(case.get('history', [])):
         try:
-            blocks = apply_op(seq, blocks, op, case)
+            blocks = eg.apply_op(seq, blocks, op, case)
         except Exception as e:
             ctx.count('gen.history_op_refused')
             return ok
@@ -449,8 +535,12 @@ def run(ctx):
                        long=(stream == 'long'), twins=(stream == 'twins'), gapped=(stream == 'gapped'))
         c = b.generate()
         c['stream'] = stream
+        c['cache'] = rng.random() < 0.8
         if stream == 'history' or (stream in ('long', 'twins') and rng.random() < 0.3):
             c['history'] = b.gen_history()
+        if c.get('history') is not None and rng.random() < 0.15:
+            ob = eg.Builder(rng, max_blocks=4)
+            c['history'].append({'op': 'read', 'case': ob.generate()})
         if stream == 'gapped' and rng.random() < 0.4:
             c['reread_raster_us'] = rng.choice([c['raster_us'], 10 if c['raster_us'] == 20 else 20])
         cases.append(c)
